@@ -134,7 +134,7 @@ def translate(scn, raw, recheck=True):
         kind = e["e"]
         if kind == "Reset":
             evs.append({"e": "Reset", "scn": scn["id"],
-                        "conf": {"useLogger": scn["mode"] != "bare", "recheck": recheck, "safeEnv": True, "locks": True, "eager": True, "rt": True},
+                        "conf": {"useLogger": scn["mode"] != "bare", "recheck": recheck, "safeEnv": True, "locks": True, "eager": True, "rt": True, "disc": True},
                         "todo": dict({"p%d" % p: [["p%d" % p, i] for i in range(1, k + 1)] for p in range(1, n + 1)},
                                      **({"pw": [["pw", i] for i in range(1, relog + 1)]} if relog else {})),
                         "script": script, "app": "alive"})
@@ -273,7 +273,12 @@ LIFE_SCRIPTS = {
     "quit": ["appCreate", "move", "execQuit", "appDestroy", "reset"],
     "reset": ["appCreate", "move", "reset", "appDestroy", "reset"],
     "cycle": ["appCreate", "move", "reset", "move", "reset", "appDestroy", "reset"],
-    "dtorlive": ["appCreate", "move", "reset", "appDestroy"],
+    "dtorlive": ["appCreate", "move", "reset", "free", "appDestroy"],
+    # the logger object is destroyed while the application lives, which then quits before / after the event loop
+    # has deleted the stopped thread object (the aboutToQuit hook must be gone with the logger)
+    "dtorquit": ["appCreate", "move", "reset", "free", "execQuit", "appDestroy"],
+    "dtorspin": ["appCreate", "move", "reset", "free", "spin", "execQuit", "appDestroy"],
+    "cyclequit": ["appCreate", "move", "reset", "move", "execQuit", "appDestroy", "reset"],
 }
 UNSAFE_PATHS = ["noexec", "noapp"]
 
@@ -305,7 +310,7 @@ def translate_life(sid, path, n, k, late, raw, rc):
     if late:
         todo["p%d" % (n + 1)] = [["p%d" % (n + 1), i] for i in range(1, k + 1)]
         total += k
-    if path == "cycle":
+    if path in ("cycle", "cyclequit"):
         todo["p%d" % (n + 2)] = [["p%d" % (n + 2), i] for i in range(1, k + 1)]
         total += k
     scn = {"id": sid, "mode": "logger", "producers": n, "msgs": k, "kind": "life-child:" + path, "late": late}
@@ -317,7 +322,7 @@ def translate_life(sid, path, n, k, late, raw, rc):
         kind = e["e"]
         if kind == "Reset":
             evs.append({"e": "Reset", "scn": sid,
-                        "conf": {"useLogger": True, "recheck": True, "safeEnv": True, "locks": True, "eager": True, "rt": True},
+                        "conf": {"useLogger": True, "recheck": True, "safeEnv": True, "locks": True, "eager": True, "rt": True, "disc": True},
                         "todo": todo, "script": script, "app": "none"})
         elif kind == "App":
             left -= 1
@@ -361,7 +366,7 @@ def translate_life(sid, path, n, k, late, raw, rc):
 def run_life_children(bdir, rnd, count):
     out = []
     for i in range(count):
-        path = rnd.choice(["quit", "quit", "reset", "cycle", "dtorlive"])
+        path = rnd.choice(["quit", "quit", "reset", "cycle", "dtorlive", "dtorquit", "dtorspin", "cyclequit"])
         n = rnd.choice([1, 2, 3])
         k = rnd.choice([0, 1, 5, 5, 20, 50])
         late = path in ("quit", "reset") and rnd.random() < 0.4
